@@ -20,33 +20,29 @@ theorem skipIgn_replicate (n : Nat) (r : List Char) : skipIgn (List.replicate n 
 /-- the end of a statement line: the end of the text, or a line end (and anything after it) -/
 def LineEnd (X : List Char) : Prop := X = [] ∨ ∃ r, X = '\n' :: r
 
-/-- what may follow the last token of a statement: blanks, then a `LineEnd` — the two facts the lemmas use -/
+/-- what may follow the last token of a statement: blanks / carriage returns and possibly a comment, then the end of
+    the text or a line end — the two facts the lemmas use: the first character (if any) is a blank, a line feed, a
+    carriage return or `#`, and after skipping whitespace and a comment the text is empty or starts with a line feed -/
 structure Tail (X : List Char) : Prop where
-  hd : OutHd (fun x => x = ' ' ∨ x = '\n') X
+  hd : OutHd (fun x => x = ' ' ∨ x = '\n' ∨ x = '\r' ∨ x = '#') X
   sk : skipIgn X = [] ∨ ∃ r, skipIgn X = '\n' :: r
 
 theorem LineEnd.tail {X : List Char} (h : LineEnd X) : Tail X := by
   rcases h with rfl | ⟨r, rfl⟩
   · exact ⟨OutHd_nil _, Or.inl rfl⟩
-  · exact ⟨OutHd_cons _ _ _ (Or.inr rfl), Or.inr ⟨r, skipIgn_cons '\n' r (by decide) (by decide)⟩⟩
+  · exact ⟨OutHd_cons _ _ _ (Or.inr (Or.inl rfl)), Or.inr ⟨r, skipIgn_cons '\n' r (by decide) (by decide)⟩⟩
 
 theorem Tail.blanks {X : List Char} (h : Tail X) (e : Nat) : Tail (List.replicate e ' ' ++ X) :=
   ⟨OutHd_blanks _ e X (Or.inl rfl) h.hd, by rw [skipIgn_replicate]; exact h.sk⟩
 
 theorem Tail.outId {X : List Char} (h : Tail X) : OutHd (fun x => x ∉ identChars) X :=
-  h.hd.imp (by rintro x (rfl | rfl); exact outside_facts ' ' (by decide); exact outside_facts '\n' (by decide))
+  h.hd.imp (by rintro x (rfl | rfl | rfl | rfl) <;> decide)
 
 theorem Tail.outDom {X : List Char} (h : Tail X) : OutHd (fun x => x ∉ identChars ∧ x ≠ '*') X :=
-  h.hd.imp (by
-    rintro x (rfl | rfl)
-    · exact ⟨outside_facts ' ' (by decide), by decide⟩
-    · exact ⟨outside_facts '\n' (by decide), by decide⟩)
+  h.hd.imp (by rintro x (rfl | rfl | rfl | rfl) <;> exact ⟨by decide, by decide⟩)
 
 theorem Tail.nameEnd {X : List Char} (h : Tail X) : OutHd NameEnd X :=
-  h.hd.imp (by
-    rintro x (rfl | rfl)
-    · exact ⟨outside_facts ' ' (by decide), by decide, by decide, by decide⟩
-    · exact ⟨outside_facts '\n' (by decide), by decide, by decide, by decide⟩)
+  h.hd.imp (by rintro x (rfl | rfl | rfl | rfl) <;> exact ⟨by decide, by decide, by decide, by decide⟩)
 
 theorem LineEnd.outDb {X : List Char} (h : LineEnd X) : OutHd (fun x => x ∉ dbChars) X := by
   rcases h with rfl | ⟨r, rfl⟩
